@@ -2172,3 +2172,123 @@ Proof.
   - intros kv desc Hv Hin. apply (R4 kv desc); auto.
     unfold tvalue, tgetargs, targ, dict_get. simpl. rewrite Hv. reflexivity.
 Qed.
+
+(* ------------------------------------------------------------------ definition order:
+   _get_task_creators + funcs.sort(key=line) ([sort_by_line] is the stable sort by line) *)
+From Coq Require Import Sorting.Permutation Sorting.Sorted.
+
+Definition line_le (a b : Z * creator) : Prop := fst a <= fst b.
+Definition on_line (k : Z) (x : Z * creator) : bool := fst x =? k.
+
+Lemma ins_by_line_perm x l : Permutation (ins_by_line x l) (x :: l).
+Proof.
+  induction l as [|y r IH]; simpl; [apply Permutation_refl|].
+  destruct (fst x <=? fst y); [apply Permutation_refl|].
+  eapply Permutation_trans; [apply perm_skip; exact IH | apply perm_swap].
+Qed.
+
+Theorem sort_by_line_perm l : Permutation (sort_by_line l) l.
+Proof.
+  induction l as [|x r IH]; simpl; [constructor|].
+  eapply Permutation_trans; [apply ins_by_line_perm | apply perm_skip; exact IH].
+Qed.
+
+Lemma ins_by_line_In x l y : In y (ins_by_line x l) -> y = x \/ In y l.
+Proof.
+  intros H. apply (Permutation_in _ (ins_by_line_perm x l)) in H. destruct H; auto.
+Qed.
+
+Lemma ins_by_line_sorted x l : StronglySorted line_le l -> StronglySorted line_le (ins_by_line x l).
+Proof.
+  induction l as [|y r IH]; simpl; intros H.
+  - constructor; constructor.
+  - inversion H as [|? ? Hr Hy]; subst.
+    destruct (fst x <=? fst y) eqn:E.
+    + constructor; [exact H|]. constructor; [unfold line_le; lia|].
+      rewrite Forall_forall in *. intros z Hz. specialize (Hy z Hz). unfold line_le in *. lia.
+    + constructor; [apply IH; exact Hr|].
+      rewrite Forall_forall in *. intros z Hz. apply ins_by_line_In in Hz. destruct Hz as [->|Hz].
+      * unfold line_le. lia.
+      * apply Hy; exact Hz.
+Qed.
+
+Theorem sort_by_line_sorted l : StronglySorted line_le (sort_by_line l).
+Proof. induction l as [|x r IH]; simpl; [constructor | apply ins_by_line_sorted; exact IH]. Qed.
+
+(* stability: the creators of one line stay in the order of the namespace *)
+Lemma ins_by_line_filter k x l :
+  filter (on_line k) (ins_by_line x l) = filter (on_line k) (x :: l).
+Proof.
+  induction l as [|y r IH]; simpl; [reflexivity|].
+  destruct (fst x <=? fst y) eqn:E; [reflexivity|].
+  simpl. rewrite IH. simpl. unfold on_line.
+  destruct (fst x =? k) eqn:Ex; destruct (fst y =? k) eqn:Ey; try reflexivity. lia.
+Qed.
+
+Theorem sort_by_line_stable k l : filter (on_line k) (sort_by_line l) = filter (on_line k) l.
+Proof.
+  induction l as [|x r IH]; simpl; [reflexivity|].
+  rewrite ins_by_line_filter. simpl. rewrite IH. reflexivity.
+Qed.
+
+Lemma sorted_app_order (l p q r : list (Z * creator)) a b :
+  StronglySorted line_le l -> l = (p ++ a :: q ++ b :: r)%list -> fst a <= fst b.
+Proof.
+  intros H ->. induction p as [|x p IH]; simpl in H.
+  - inversion H as [|? ? _ Ha]; subst. rewrite Forall_forall in Ha. apply (Ha b).
+    apply in_or_app. right. left. reflexivity.
+  - inversion H; subst. auto.
+Qed.
+
+(* whatever their names, a creator placed before another one has a smaller or equal line *)
+Theorem sort_by_line_order l p q r a b :
+  sort_by_line l = (p ++ a :: q ++ b :: r)%list -> fst a <= fst b.
+Proof. intros H. exact (sorted_app_order _ p q r a b (sort_by_line_sorted l) H). Qed.
+
+(* the same, read the other way: of two creators of the namespace the one defined on the smaller line
+   is loaded first; on the same line, the one that comes first in the namespace *)
+Lemma filter_app_order {A} (f : A -> bool) (l : list A) p q r a b :
+  l = (p ++ a :: q ++ b :: r)%list -> f a = true -> f b = true ->
+  exists p' q' r', filter f l = (p' ++ a :: q' ++ b :: r')%list.
+Proof.
+  intros -> Ha Hb. rewrite filter_app. simpl. rewrite Ha. rewrite filter_app. simpl. rewrite Hb.
+  eexists. eexists. eexists. reflexivity.
+Qed.
+
+Lemma app_order_in_filter {A} (f : A -> bool) (l : list A) p q r a b :
+  filter f l = (p ++ a :: q ++ b :: r)%list ->
+  exists p' q' r', l = (p' ++ a :: q' ++ b :: r')%list.
+Proof.
+  revert p. induction l as [|x l IH]; simpl; intros p H.
+  - destruct p; discriminate.
+  - destruct (f x) eqn:E.
+    + destruct p as [|y p]; simpl in H.
+      * inversion H as [[Hx Hr]].
+        assert (Hb : In b (filter f l)) by (rewrite Hr; apply in_or_app; right; left; reflexivity).
+        apply filter_In in Hb. destruct Hb as [Hb _]. apply in_split in Hb. destruct Hb as [l1 [l2 Hl]].
+        exists [], l1, l2. rewrite Hl. reflexivity.
+      * inversion H as [[Hx Hr]]. destruct (IH p Hr) as [p' [q' [r' Hl]]].
+        exists (y :: p'), q', r'. rewrite Hl. reflexivity.
+    + destruct (IH p H) as [p' [q' [r' Hl]]]. exists (x :: p'), q', r'. rewrite Hl. reflexivity.
+Qed.
+
+Theorem sort_by_line_same_line l p q r a b :
+  l = (p ++ a :: q ++ b :: r)%list -> fst a = fst b ->
+  exists p' q' r', sort_by_line l = (p' ++ a :: q' ++ b :: r')%list.
+Proof.
+  intros Hl Hab.
+  destruct (filter_app_order (on_line (fst a)) l p q r a b Hl) as [p1 [q1 [r1 H1]]].
+  - unfold on_line. lia.
+  - unfold on_line. lia.
+  - rewrite <- sort_by_line_stable in H1. exact (app_order_in_filter _ _ _ _ _ _ _ H1).
+Qed.
+
+(* loading a namespace: the task names are those of the creators taken in the order of their
+   definition lines *)
+Theorem load_namespace_names fmt fn cmds allow ns ts :
+  load_namespace fmt fn L2 cmds allow ns = Ok ts ->
+  map t_name ts = flat_map (creator_keys allow) (ordered_creators ns).
+Proof. unfold load_namespace. apply load_names. Qed.
+
+Theorem load_namespace_total fmt fn cmds allow ns c : load_namespace fmt fn L2 cmds allow ns <> Crash c.
+Proof. unfold load_namespace. apply load_total. Qed.
